@@ -90,6 +90,16 @@ def run_pair(case, ctx=None):  # pylint: disable=too-many-locals,too-many-branch
                         cont.close()
                     if not res.is_valid():
                         raise Violation(PROP, 'rerun-validate', f'validate() after the rerun reports {res} [{context}]')
+                if not returned and is_repack:
+                    # an interrupted repack needs manual repair: running it again may be refused (or may complete), but it must
+                    # not make things worse - everything stored is still where the index or the loose folder says
+                    rerun = run_in_process(prep.work, prep.case, prep.model, prep.aux_model, prep.rop, PointCounter(set(), ''), warm=False)
+                    if rerun['status'] == 'violation':
+                        raise Violation(PROP, 'rerun:' + rerun['sig'], rerun['msg'] + f' [rerun after {context}]')
+                    cr.inspect_state(prep.work, PROP, prep.model, prep.candidates, prep.deleted, prep.planted,
+                                     context=f'repack run again ({rerun["status"]} {rerun.get("type", "")}) after ' + context, complete=False)
+                    if ctx is not None:
+                        ctx.stats.label(f'repack-rerun:{rerun["status"]}')
                 if ctx is not None:
                     ctx.stats.record(
                         k > first_mut, [desc, k, points[k][0], variant, len(points)],
